@@ -464,6 +464,18 @@ func init() {
 			"9999999999999999999", "10000000000000000000", "99999999999999999999", "100000000000000000000", "1844674407370955161", "1844674407370955162", "184467440737095516150"}
 		ops := []string{"u64", "i64", "i32", "u32", "int", "uint"}
 		nexts := []string{"", " ", ".", "e", "E", "x", ",", "]", "5", "0", "-", "+", "\x00", "\xff"}
+		// the Decode forms behave as the readers on non-null input: literals at every bound, bare
+		// signs and out-of-range values, followed by what a null test at the wrong place would accept
+		for _, lit := range []string{"-", "+", "--", "0", "-0", "7", "-7", "2147483647", "2147483648", "-2147483648", "-2147483649", "4294967295", "4294967296",
+			"9223372036854775807", "9223372036854775808", "-9223372036854775808", "-9223372036854775809", "18446744073709551615", "18446744073709551616", "1.5", "1e2", "x"} {
+			for _, tail := range []string{"", "null", " null", "null ", ",", " 1"} {
+				for _, pre := range []string{"", " "} {
+					for _, op := range ops {
+						e.emit("dec %s %s 7", op, hs([]byte(pre+lit+tail)))
+					}
+				}
+			}
+		}
 		for _, bs := range bounds {
 			b := bigs(bs)
 			for d := -w; d <= w; d++ {
